@@ -24,7 +24,7 @@ type vts struct {
 }
 
 func vtsOf(v core.PackableValue) vts {
-	d, t, x, ok := core.VerifTsParts(v)
+	d, t, x, ok := core.TsVerifParts(v)
 	rt.Assert("ts/is-a-date-or-timestamp", ok)
 	return vts{d, t, x, v}
 }
@@ -41,10 +41,7 @@ func vtsSame(a, b vts) bool {
 
 // vtsTime: an arbitrary valid time of day without milliseconds, as a raw time word
 func vtsTime(name string) uint32 {
-	h, m, s := rt.U32(name+"_h"), rt.U32(name+"_m"), rt.U32(name+"_s")
-	rt.Assume(h < 24)
-	rt.Assume(m < 60)
-	rt.Assume(s < 60)
+	h, m, s := uint32(rt.Choice(name+"_h", 24)), uint32(rt.Choice(name+"_m", 60)), uint32(rt.Choice(name+"_s", 60))
 	return h<<22 | m<<16 | s<<10
 }
 
@@ -58,6 +55,34 @@ var vtsDays = [][2]uint32{
 	{vtsDate(2024, 2, 28), vtsDate(2024, 2, 29)},
 	{vtsDate(2023, 2, 28), vtsDate(2023, 3, 1)},
 	{vtsDate(2025, 12, 31), vtsDate(2026, 1, 1)},
+}
+
+// vsumPlus stands for SuDate.Plus in the engine (summary=; natively the real Plus runs and the
+// conformance replays compare the two). The only call reached here is the fallback of AddMs,
+// d.Plus(0,0,0,0,0,0,1) with d.Millisecond()+1 == 1000 (asserted): the contract is "the first
+// millisecond of the next second", rolling over minute, hour and day (the next day is looked up
+// in vtsDays). That Plus normalises like this is property C33 (VerifC33PlusTime); run
+// symbolically, Go's time.Date on an arbitrary time of day is too hard for the solver in bv mode.
+func vsumPlus(d core.SuDate, yr, mon, day, hr, min, sec, ms int) core.SuDate {
+	date, time, _, _ := core.TsVerifParts(d)
+	rt.Assert("ts/plus-only-for-the-ms-rollover",
+		yr == 0 && mon == 0 && day == 0 && hr == 0 && min == 0 && sec == 0 && rt.And(ms == 1, time&0x3ff == 999))
+	h, m, s := time>>22, (time>>16)&0x3f, (time>>10)&0x3f
+	switch {
+	case s < 59:
+		return core.TsVerifMkDate(date, h<<22|m<<16|(s+1)<<10)
+	case m < 59:
+		return core.TsVerifMkDate(date, h<<22|(m+1)<<16)
+	case h < 23:
+		return core.TsVerifMkDate(date, (h+1)<<22)
+	}
+	for _, dd := range vtsDays {
+		if date == dd[0] {
+			return core.TsVerifMkDate(dd[1], 0)
+		}
+	}
+	rt.Assert("ts/model-knows-the-next-day", false)
+	return core.NilDate
 }
 
 // vtsTickStep is the update step of ticker() (timestamp.go), verbatim, for a clock reading t
@@ -88,7 +113,7 @@ func vtsTickStep(t core.SuDate) {
 // strictly increase - by the harness's own lexicographic order on (date, time, extra) and
 // by the values' own Compare; a value with an extra byte never has extra = 0.
 //
-//symgo:harness prop=C34 tier=quick shards=8 timeout=400 ttimeout=1700 preempt=0 bounds=scripts_of_4_(thorough_6)_events_from_{clock_tick_with_an_arbitrary_time,direct_request,client_A_request,client_B_request,expiry_of_A,expiry_of_B};server_timestamp_starts_at_any_time_of_day_and_millisecond_on_2025-06-15_(thorough:_also_Feb_28_leap/non-leap,_Dec_31);clients_start_with_an_expired_(=empty)_batch outside=the_ticker_and_tsExpire_goroutines_themselves_(their_loop_bodies_are_run_as_events;_the_real_ticker_runs_in_VerifC34Ticker);the_client-server_wire_transfer;server_restart_within_the_same_second_(990_ms_head_start);more_than_2_clients;more_than_255+1_requests_per_batch
+//symgo:harness prop=C34 tier=quick shards=8 timeout=400 ttimeout=1700 preempt=0 summary=(github.com/apmckinlay/gsuneido/core.SuDate).Plus=vsumPlus bounds=scripts_of_4_(thorough_6)_events_from_{clock_tick_with_an_arbitrary_time,direct_request,client_A_request,client_B_request,expiry_of_A,expiry_of_B};server_timestamp_starts_at_any_time_of_day_and_millisecond_on_2025-06-15_(thorough:_also_Feb_28_leap/non-leap,_Dec_31);clients_start_with_an_expired_(=empty)_batch outside=SuDate.Plus_(reached_only_for_the_+1_ms_roll-over_at_ms_999)_is_replaced_by_its_contract_in_the_engine_(property_C33;_the_real_one_is_compared_in_the_native_conformance_replays);the_ticker_and_tsExpire_goroutines_themselves_(their_loop_bodies_are_run_as_events;_the_real_ticker_runs_in_VerifC34Ticker);the_client-server_wire_transfer;server_restart_within_the_same_second_(990_ms_head_start);more_than_2_clients;more_than_255+1_requests_per_batch
 func VerifC34Ts() {
 	nev := 4
 	ndays := 1
@@ -97,43 +122,62 @@ func VerifC34Ts() {
 		ndays = len(vtsDays)
 	}
 	days := vtsDays[rt.Pick("day", ndays)]
-	ms := rt.U32("ms0")
-	rt.Assume(ms < 1000)
-	timestamp = core.VerifMkDate(days[0], vtsTime("t0")|ms)
+	ms := uint32(rt.Choice("ms0", 1000))
+	timestamp = core.TsVerifMkDate(days[0], vtsTime("t0")|ms)
 
 	core.GetDbms = func() core.IDbms { return vtsDbms{} }
 	th := &core.Thread{}
 	// a client whose batch is used up / expired: its next request goes to the server, exactly
 	// as for a fresh process (tsCount = tsLimit = 0) except that the latter also starts the
 	// tsExpire goroutine
-	expired := core.VerifTsState{Count: core.TsInitialBatch + 1, Limit: core.TsInitialBatch}
-	clients := []core.VerifTsState{expired, expired}
-	saved := core.VerifTsGet()
-	defer core.VerifTsSet(saved)
+	expired := core.TsVerifState{Count: core.TsInitialBatch + 1, Limit: core.TsInitialBatch}
+	clients := []core.TsVerifState{expired, expired}
+	saved := core.TsVerifGet()
+	defer core.TsVerifSet(saved)
 
 	var all []vts
 	var caller []int // 0 direct, 1 A, 2 B
+	var asked, fresh [2]bool // client has asked at all / since its last expiry
 	for i := 0; i < nev; i++ {
 		nm := vname34("e", i)
-		switch ev := rt.Pick(nm, 6); ev {
+		ev := rt.Pick(nm, 6)
+		// scripts that add nothing are skipped: a script ending in an event that hands out no
+		// value is covered by the shorter script (thorough runs them all the same); B's
+		// first request before A's first is the mirror image of the script with A and B
+		// exchanged; an expiry of a client that has not asked since its last expiry (or at all)
+		// changes nothing
+		if !rt.Thorough() {
+			if i == nev-1 && (ev == 0 || ev >= 4) {
+				return
+			}
+			if ev == 3 && !asked[0] && !asked[1] {
+				return
+			}
+			if ev >= 4 && !fresh[ev-4] {
+				return
+			}
+		}
+		switch ev {
 		case 0:
 			day := days[rt.Pick(nm+"_day", 2)]
-			vtsTickStep(core.VerifMkDate(day, vtsTime(nm+"_clk")))
+			vtsTickStep(core.TsVerifMkDate(day, vtsTime(nm+"_clk")))
 		case 1:
 			all = append(all, vtsOf(Timestamp()))
 			caller = append(caller, 0)
 		case 2, 3:
 			c := ev - 2
-			core.VerifTsSet(clients[c])
+			core.TsVerifSet(clients[c])
 			v := th.Timestamp()
-			clients[c] = core.VerifTsGet()
+			clients[c] = core.TsVerifGet()
+			asked[c], fresh[c] = true, true
 			all = append(all, vtsOf(v))
 			caller = append(caller, 1+c)
 		case 4, 5:
 			c := ev - 4
-			core.VerifTsSet(clients[c])
-			core.VerifTsExpireStep()
-			clients[c] = core.VerifTsGet()
+			core.TsVerifSet(clients[c])
+			core.TsVerifExpireStep()
+			clients[c] = core.TsVerifGet()
+			fresh[c] = false
 		}
 	}
 	rt.Reach("script-done")
